@@ -17,13 +17,22 @@ Definition in_range (k : ikind) (z : Z) : bool := (imin k <=? z)%Z && (z <=? ima
 Inductive lty :=
 | TInt (k : ikind) | TBool | TUnit | TOpt (t : lty) | TArr (n : nat) (t : lty) | TTup (ts : list lty)
 | TStr (cap : N)              (* heapless::String<cap>: at most cap bytes of UTF-8 *)
-| TTag.                       (* unit-variant enum with the names of Codec.tag_name, as a string *)
+| TTag                        (* unit-variant enum with the names of Codec.tag_name, as a string (StrLeaf) *)
+| TEnum (names : list str)    (* serde unit-variant enum: JSON "Name", postcard varint(index) *)
+| TStruct (fs : list (str * lty)).   (* serde struct: JSON {"f":v,...} in declaration order, postcard: fields concatenated *)
 
 (* ---------------------------------------------------------------- typing *)
 Definition scalar (c : N) : bool := (c <? 55296) || ((57343 <? c) && (c <? 1114112)).
 (* characters that serde-json-core writes verbatim *)
 Definition plain_char (c : N) : bool := scalar c && (31 <? c) && negb (c =? 34) && negb (c =? 92).
 Definition nullish (t : lty) : bool := match t with TUnit | TOpt _ => true | _ => false end.
+
+Fixpoint str_eqb (a b : str) : bool :=
+  match a, b with [], [] => true | x :: a', y :: b' => (x =? y) && str_eqb a' b' | _, _ => false end.
+Fixpoint uniq (names : list str) : bool :=
+  match names with [] => true | n :: r => negb (existsb (str_eqb n) r) && uniq r end.
+Fixpoint name_pos (s : str) (names : list str) : option N :=
+  match names with [] => None | n :: r => if str_eqb n s then Some 0 else option_map N.succ (name_pos s r) end.
 
 Fixpoint has_ty (t : lty) (v : lval) {struct t} : bool :=
   match t, v with
@@ -42,6 +51,14 @@ Fixpoint has_ty (t : lty) (v : lval) {struct t} : bool :=
          end) ts l
   | TStr cap, LStr s => forallb plain_char s && (N.of_nat (length (utf8 s)) <=? cap) && (cap <? 18446744073709551616)
   | TTag, LTag n => n <? 3
+  | TEnum names, LTag n => (N.to_nat n <? length names)%nat && forallb (forallb plain_char) names && uniq names && (n <? 4294967296)
+  | TStruct fs, LArr l =>
+      (fix go (fs : list (str * lty)) (l : list lval) : bool :=
+         match fs, l with
+         | [], [] => true
+         | (nm, t') :: fr, x :: r => forallb plain_char nm && has_ty t' x && go fr r
+         | _, _ => false
+         end) fs l
   | _, _ => false
   end.
 
@@ -141,8 +158,40 @@ Fixpoint jenc (v : lval) : bytes :=
   | LTag n => 34 :: utf8 (tag_name n) ++ [34]
   end.
 
-Fixpoint str_eqb (a b : str) : bool :=
-  match a, b with [], [] => true | x :: a', y :: b' => (x =? y) && str_eqb a' b' | _, _ => false end.
+Definition quoted (s : str) : bytes := 34 :: utf8 s ++ [34].
+(* type-directed encoder: as [jenc], plus serde enums and structs (which need their names) *)
+Fixpoint jenc_t (t : lty) (v : lval) {struct t} : bytes :=
+  match t, v with
+  | TInt _, LInt z => jenc_int z
+  | TBool, LBool true => J_TRUE
+  | TBool, LBool false => J_FALSE
+  | TUnit, _ => J_NULL
+  | TOpt _, LOpt None => J_NULL
+  | TOpt t', LOpt (Some x) => jenc_t t' x
+  | TArr _ t', LArr l =>
+      91 :: (fix go (l : list lval) (first : bool) : bytes :=
+               match l with
+               | [] => [93]
+               | x :: r => (if first then [] else [44]) ++ jenc_t t' x ++ go r false
+               end) l true
+  | TTup ts, LArr l =>
+      91 :: (fix go (ts : list lty) (l : list lval) (first : bool) : bytes :=
+               match ts, l with
+               | t' :: tr, x :: r => (if first then [] else [44]) ++ jenc_t t' x ++ go tr r false
+               | _, _ => [93]
+               end) ts l true
+  | TStr _, LStr s => quoted s
+  | TTag, LTag n => quoted (tag_name n)
+  | TEnum names, LTag n => quoted (nth (N.to_nat n) names [])
+  | TStruct fs, LArr l =>
+      123 :: (fix go (fs : list (str * lty)) (l : list lval) (first : bool) : bytes :=
+                match fs, l with
+                | (nm, t') :: fr, x :: r => (if first then [] else [44]) ++ quoted nm ++ 58 :: jenc_t t' x ++ go fr r false
+                | _, _ => [125]
+                end) fs l true
+  | _, _ => []
+  end.
+
 Definition tag_of_name (s : str) : option N :=
   if str_eqb s (tag_name 0) then Some 0 else if str_eqb s (tag_name 1) then Some 1
   else if str_eqb s (tag_name 2) then Some 2 else None.
@@ -200,11 +249,33 @@ Fixpoint jdec (t : lty) (s : bytes) {struct t} : option (lval * bytes) :=
                     | Some (cs, r) => match tag_of_name cs with Some n => Some (LTag n, r) | None => None end
                     | None => None end
       | _ => None end
+  | TEnum names =>
+      match s with
+      | 34 :: s1 => match str_body (S (length s1)) s1 with
+                    | Some (cs, r) => match name_pos cs names with Some n => Some (LTag n, r) | None => None end
+                    | None => None end
+      | _ => None end
+  | TStruct fs =>
+      match s with
+      | 123 :: s1 =>
+          wrap_arr ((fix fields (fs : list (str * lty)) (first : bool) (s : bytes) : option (list lval * bytes) :=
+             match fs with
+             | [] => match s with 125 :: r => Some ([], r) | _ => None end
+             | (nm, t') :: fr =>
+                 match (if first then Some s else strip [44] s) with
+                 | Some s' => match strip (quoted nm ++ [58]) s' with
+                              | Some s'' => match jdec t' s'' with
+                                            | Some (x, r) => match fields fr false r with Some (xs, r') => Some (x :: xs, r') | None => None end
+                                            | None => None end
+                              | None => None end
+                 | None => None end
+             end) fs true s1)
+      | _ => None end
   end.
 
 (* json::get_by_key into a buffer of [cap] bytes: the byte count, or a serializer error *)
-Definition json_get (cap : N) (v : lval) : option bytes :=
-  if N.of_nat (length (jenc v)) <=? cap then Some (jenc v) else None.
+Definition json_get (t : lty) (cap : N) (v : lval) : option bytes :=
+  if N.of_nat (length (jenc_t t v)) <=? cap then Some (jenc_t t v) else None.
 (* json::set_by_key: value written and the number of bytes consumed; trailing data is reported after
    the leaf was written (Finalization) *)
 Inductive setres := SetOk (v : lval) (consumed : N) | SetTrailing (v : lval) | SetErr.
@@ -262,6 +333,10 @@ Fixpoint penc (t : lty) (v : lval) {struct t} : bytes :=
          match ts, l with t' :: tr, x :: r => penc t' x ++ go tr r | _, _ => [] end) ts l
   | TStr _, LStr s => varint 10 (N.of_nat (length (utf8 s))) ++ utf8 s
   | TTag, LTag n => varint 10 (N.of_nat (length (utf8 (tag_name n)))) ++ utf8 (tag_name n)
+  | TEnum _, LTag n => varint 5 n
+  | TStruct fs, LArr l =>
+      (fix go (fs : list (str * lty)) (l : list lval) : bytes :=
+         match fs, l with (_, t') :: fr, x :: r => penc t' x ++ go fr r | _, _ => [] end) fs l
   | _, _ => []
   end.
 
@@ -316,6 +391,18 @@ Fixpoint pdec (t : lty) (s : bytes) {struct t} : option (lval * bytes) :=
                                            | None => None end
                        | None => None end
       | None => None end
+  | TEnum names =>
+      match unvarint 5 s with
+      | Some (n, r) => if (N.to_nat n <? length names)%nat then Some (LTag n, r) else None
+      | None => None end
+  | TStruct fs =>
+      wrap_arr ((fix fields (fs : list (str * lty)) (s : bytes) : option (list lval * bytes) :=
+         match fs with
+         | [] => Some ([], s)
+         | (_, t') :: fr => match pdec t' s with
+                            | Some (x, r) => match fields fr r with Some (xs, r') => Some (x :: xs, r') | None => None end
+                            | None => None end
+         end) fs s)
   end.
 
 Definition postcard_get (t : lty) (cap : N) (v : lval) : option bytes :=
